@@ -513,3 +513,13 @@ def q_mut(m):
     if k == "drop_cons": return "(MDropCons %d %d)" % (m[1], m[2])
     if k == "change_cons": return "(MChangeCons %d %s)" % (m[1], q_cons(m[2]))
     raise AssertionError(k)
+
+
+def type_matrix(same_family_too):
+    """every ordered pair of catalogue types on one column of a one-table schema"""
+    for x in TYPE_CATALOGUE:
+        for y in TYPE_CATALOGUE:
+            if x == y: continue
+            if not same_family_too and types_match(x[0], y[0]): continue
+            A = [{"name": 0, "cols": [[0, 0, [], False, True], [1, x[0], list(x[1]), True, False]], "cons": [["ix", 0, [1], False]]}]
+            yield A, [y[0], list(y[1])]
